@@ -11,6 +11,7 @@ import (
 	"sort"
 	"strconv"
 	"sync"
+	"sync/atomic"
 	"testing"
 	"testing/synctest"
 	"time"
@@ -105,7 +106,9 @@ type readRec struct {
 	done     bool
 	err      error
 	items    []*model.Res
-	seq      int // order of return
+	startTick int64 // global tick taken immediately before the call
+	endTick   int64 // and immediately after it returned
+	matched   int
 }
 
 type ctxRec struct {
@@ -232,7 +235,7 @@ func runBubble(p Plan) (v hk.Verdict) {
 	var (
 		mu   sync.Mutex
 		recs = make([]*readRec, len(p.Reads))
-		seq  int
+		tick atomic.Int64
 	)
 
 	issue := func(i int) {
@@ -250,6 +253,8 @@ func runBubble(p Plan) (v hk.Verdict) {
 				items []*model.Res
 				err   error
 			)
+
+			start := tick.Add(1)
 
 			switch r.K {
 			case "get":
@@ -283,10 +288,11 @@ func runBubble(p Plan) (v hk.Verdict) {
 				}
 			}
 
+			end := tick.Add(1)
+
 			mu.Lock()
 			rec.done, rec.err, rec.items, rec.returned = true, err, items, w.Now()
-			rec.seq = seq
-			seq++
+			rec.startTick, rec.endTick = start, end
 			mu.Unlock()
 		}()
 	}
@@ -394,11 +400,9 @@ func runBubble(p Plan) (v hk.Verdict) {
 	ordered := append([]*readRec(nil), recs...)
 	mu.Unlock()
 
-	sort.SliceStable(ordered, func(i, j int) bool { return ordered[i].seq < ordered[j].seq })
+	sort.SliceStable(ordered, func(i, j int) bool { return ordered[i].endTick < ordered[j].endTick })
 
-	lastIdx := map[int]int{} // per type
-
-	for _, rec := range ordered {
+	for oi, rec := range ordered {
 		if !rec.done {
 			v.Failf("cached %s of %s issued at %s never returned", rec.r.K, types[rec.r.Typ], rec.issued)
 
@@ -414,8 +418,11 @@ func runBubble(p Plan) (v hk.Verdict) {
 		typ := types[rec.r.Typ]
 		lo := preLen
 
-		if li, ok := lastIdx[rec.r.Typ]; ok && li > lo {
-			lo = li
+		// monotonicity floor: full lists that returned before this read was issued (real-time order)
+		for _, prev := range ordered[:oi] {
+			if prev.done && prev.err == nil && prev.r.Typ == rec.r.Typ && prev.r.K == "list" && prev.endTick < rec.startTick && prev.matched > lo {
+				lo = prev.matched
+			}
 		}
 
 		found := -1
@@ -446,9 +453,7 @@ func runBubble(p Plan) (v hk.Verdict) {
 
 		// the smallest matching index is a lower bound of the view's index; keep it as the monotonicity floor only if
 		// the read distinguishes indices (full lists do, filtered ones may not)
-		if rec.r.K == "list" {
-			lastIdx[rec.r.Typ] = found
-		}
+		rec.matched = found
 
 		if rec.r.AtMs < 0 {
 			v.NonTrivial = true
